@@ -253,6 +253,24 @@ func (fc *fileCtx) raceInstrument() {
 				}
 			}
 		case *ast.StarExpr:
+			// *p where p points to a scalar (e.g. the ttl cell that travels in a context and is shared with
+			// whoever holds the context): a plain read or write of that cell
+			if tv, ok := info.Types[v]; ok && tv.IsValue() && !inside(v.X) && !addrOf[v] {
+				if pt, ok := typeOf(v.X).(*types.Pointer); ok {
+					if _, basic := pt.Elem().Underlying().(*types.Basic); basic {
+						fn := "R"
+						if writes[v] {
+							fn = "W"
+						}
+
+						fc.wrap(v.X, 3, "zzverifsim."+fn+"(", ", "+lbl(v, "deref")+")")
+						stats["race.deref"+fn]++
+
+						return true
+					}
+				}
+			}
+
 			// *p as a value (struct copy) where p points to a cache struct
 			if tv, ok := info.Types[v]; ok && tv.IsValue() && !writes[v] && !inside(v.X) && ptrToCacheStruct(typeOf(v.X)) {
 				fc.wrap(v.X, 3, "zzverifsim.ReadAllP(", ", "+lbl(v, "struct-copy")+")")
